@@ -28,6 +28,21 @@ type KnownFinding struct {
 
 type ExpectedFile map[string][]string
 
+// loadKnownOpen reads the open findings: those of prop get a short solver budget and a KNOWN-FINDING line,
+// and no open finding's clause is ever assumed at a call site.
+func loadKnownOpen(prop string) {
+	var kfs0 []KnownFinding
+	loadJSON(filepath.Join(verifDir, "known_findings.json"), &kfs0)
+	for _, k := range kfs0 {
+		if k.Status == "open" {
+			knownOpenAny[k.Obligation] = true
+			if k.Property == prop {
+				knownOpen[k.Obligation] = true
+			}
+		}
+	}
+}
+
 func loadJSON(path string, v interface{}) error {
 	b, err := os.ReadFile(path)
 	if err != nil {
@@ -149,15 +164,7 @@ func cmdCheck(args []string) int {
 		useCache = false
 	}
 	loadCache()
-	{
-		var kfs0 []KnownFinding
-		loadJSON(filepath.Join(verifDir, "known_findings.json"), &kfs0)
-		for _, k := range kfs0 {
-			if k.Status == "open" && k.Property == *prop {
-				knownOpen[k.Obligation] = true
-			}
-		}
-	}
+	loadKnownOpen(*prop)
 	out := e.runProperty(*prop, *tier, budget)
 	// expected obligations (vacuity / disappearance guard)
 	expPath := filepath.Join(verifDir, "expected_obligations.json")
